@@ -1,6 +1,7 @@
 #include "pch.h"
 
 #include "psc/variable.h"
+#include "psc/scope/context.h"
 
 using namespace PSC;
 
@@ -96,6 +97,8 @@ void Variable::set(Value *_data, bool copy) {
             break;
         case DataType::COMPOSITE:
             data = new PSC::Composite(*((const PSC::Composite*) _data));
+            // the copy lives in this variable's context, not in the source's
+            ((PSC::Composite*) data)->ctx->setParent(parent);
             break;
         case DataType::NONE:
             std::abort();
